@@ -29,7 +29,7 @@ def run(c: Check):
     c.tlc_mc("Config", "Config_sanity_ecs.cfg", expect_violation="AcceptedImpliesSafe",
              name="sanity: ecs_size 0 accepted with type ecs")
 
-    env = {"VERIF_N": 12000 if th else 1500, "VERIF_REPS": 4 if th else 2}
+    env = {"VERIF_N": 6000 if th else 1500, "VERIF_REPS": 4 if th else 2}
     out, _ = c.go_harness("internal/cmd", "^TestVerifC20$", env=env, timeout=1500 if th else 600)
     ev = read_ndjson(out)
     if len(ev) < 500:
@@ -65,6 +65,10 @@ def run(c: Check):
         for m in e["mut"]:
             classes_seen.add((m["f"], m["c"]))
         c.count_case([(m["f"], m["c"], m["v"]) for m in e["mut"]], nontrivial=len(e["mut"]) > 0)
+    cells = r.tuples("CELLS")
+    if not cells or int(cells[0][0]) != len(classes_seen):
+        raise Undecided("vacuous: the model has %s (field, class) cells, the harness exercised %d" % (
+            cells[0][0] if cells else "?", len(classes_seen)))
     if n_acc < 50 or n_rej < 50 or n_ex < 50:
         raise Undecided("vacuous: accepted=%d rejected=%d exercised=%d" % (n_acc, n_rej, n_ex))
     c.notes.append("configurations=%d accepted=%d rejected=%d exercised=%d field/class cells=%d" % (
